@@ -24,7 +24,7 @@ func mHasImplicitZero(y []byte) bool {
 		if m < 0 {
 			return res
 		}
-		if num >= 1 && num <= 6 {
+		if num >= 1 && num <= 10 {
 			allzero := true
 			for i := 0; i < m; i++ {
 				z := y[i] == 0 || (typ == protowire.VarintType && y[i] == 0x80)
@@ -38,7 +38,11 @@ func mHasImplicitZero(y []byte) bool {
 }
 
 // mMerge: Merge(a, b) against decoding of concatenations, for a = dec(x), b = dec(y).
-func mMerge(k int, x, y []byte) {
+func mMerge(k int, x, y []byte) { mMergeK(k, x, y, k == 1) }
+
+// mMergeK: implicit says whether the type has implicit-presence scalars in fields 1..10 (then an
+// explicit zero record in y is the excused input class).
+func mMergeK(k int, x, y []byte, implicit bool) {
 	mi, pa := vType(k)
 	_, pb := vType(k)
 	_, ea := mi.unmarshalPointer(x, pa, 0, mOpts())
@@ -75,7 +79,7 @@ func mMerge(k int, x, y []byte) {
 	if ed == nil && ee == nil {
 		cd, _ := mCanon(mi, pd)
 		ce, _ := mCanon(mi, pe)
-		if k == 1 && mHasImplicitZero(y) {
+		if implicit && mHasImplicitZero(y) {
 			// protobuf's merge semantics keep the old value when the source holds the zero value of an
 			// implicit-presence scalar, while wire decoding overwrites with the explicit zero.
 			nd.Reach("explicit zero of implicit-presence scalar in y")
@@ -332,4 +336,93 @@ func H_M5_sizecache() {
 	nd.Assert(merr == nil, "marshal succeeds")
 	nd.Assert(size == len(want), "Size is recomputed, not taken from a stale cache")
 	nd.Assert(mEq(got, want), "Marshal after Size encodes the current content whatever the caches held")
+}
+
+// H_M3_fixed_scalars3: Merge vs concatenated decoding for the implicit-presence float field of
+// VScalars3 (field 6, fixed32) with both records carrying arbitrary bit patterns (NaNs, -0.0,
+// denormals): the only input class excused is an explicit +0.0 in y (all payload bits zero).
+//
+//verif:props=C07 bounds=VScalars3;x,y=one-fixed32-record-each-with-4-free-bytes maxsteps=8000000
+func H_M3_fixed_scalars3() {
+	x := append([]byte{0x35}, nd.BytesN(4)...)
+	y := append([]byte{0x35}, nd.BytesN(4)...)
+	mMerge(1, x, y)
+}
+
+// H_M3_fixed_all3: the same for the implicit-presence double (field 10, fixed64) and fixed64
+// (field 7) fields of VAll3.
+//
+//verif:props=C07 bounds=VAll3;x,y=one-fixed64-record-each(double-or-fixed64-field)-with-8-free-bytes maxsteps=8000000
+func H_M3_fixed_all3() {
+	tag := byte(0x51) // field 10, fixed64: double
+	if nd.Bool() {
+		tag = 0x39 // field 7, fixed64
+	}
+	x := append([]byte{tag}, nd.BytesN(8)...)
+	y := append([]byte{tag}, nd.BytesN(8)...)
+	mMergeK(11, x, y, true)
+}
+
+// mTwoRecords builds two records x, y of the SAME symbolic field (tag byte shared, any field
+// 1..15, any wire type) with independent symbolic payloads of a small exact shape.
+func mTwoRecords() ([]byte, []byte) {
+	tag := nd.Byte()
+	nd.Assume(tag < 0x80 && tag >= 8)
+	rec := func() []byte {
+		b := []byte{tag}
+		switch tag & 7 {
+		case 0:
+			n := nd.Int(1, 2)
+			v := nd.BytesN(n)
+			if n == 2 {
+				nd.Assume(v[0] >= 0x80)
+			}
+			nd.Assume(v[n-1] < 0x80)
+			b = append(b, v...)
+		case 1:
+			b = append(b, nd.BytesN(8)...)
+		case 5:
+			b = append(b, nd.BytesN(4)...)
+		case 2:
+			n := nd.Int(0, 2)
+			b = append(b, byte(n))
+			b = append(b, nd.BytesN(n)...)
+		}
+		return b
+	}
+	return rec(), rec()
+}
+
+//verif:props=C07 bounds=VAll2;x,y=one-record-each-of-the-same-symbolic-field(varint<=2-bytes,fixed32,fixed64,bytes<=2) maxsteps=8000000
+func H_M3_field_all2() {
+	x, y := mTwoRecords()
+	mMergeK(10, x, y, false)
+}
+
+//verif:props=C07 bounds=VAll3;x,y=one-record-each-of-the-same-symbolic-field maxsteps=8000000
+func H_M3_field_all3() {
+	x, y := mTwoRecords()
+	mMergeK(11, x, y, true)
+}
+
+//verif:props=C07 bounds=VAllRep;x,y=one-record-each-of-the-same-symbolic-field maxsteps=8000000
+func H_M3_field_allrep() {
+	x, y := mTwoRecords()
+	mMergeK(12, x, y, false)
+}
+
+//verif:props=C07 bounds=VAllPacked;x,y=one-record-each-of-the-same-symbolic-field maxsteps=8000000
+func H_M3_field_allpacked() {
+	x, y := mTwoRecords()
+	mMergeK(13, x, y, false)
+}
+
+//verif:props=C07 bounds=VScalars2-and-VScalars3;x,y=one-record-each-of-the-same-symbolic-field maxsteps=8000000
+func H_M3_field_scalars() {
+	x, y := mTwoRecords()
+	if nd.Bool() {
+		mMergeK(0, x, y, false)
+	} else {
+		mMergeK(1, x, y, true)
+	}
 }
